@@ -118,6 +118,8 @@ func runC08(c *Ctx) {
 	c.Rule("C08.nonblocking-feed", "subscribe.(*Server).Update and its whole call closure (static calls, every non-test implementer of invoked module interfaces) contain no blocking construct; the closure must include coalesce.(*Queue).Insert")
 	c.Rule("C08.nonblocking-locks", "no blocking construct is executed while a mutex is held in packages match, coalesce, cache, ctree, metadata, latency (cache client fields bound to Server.Update; visitors passed to Query/Walk inside the module must be non-blocking)")
 	c.Rule("C08.bounded-backlog", "coalesce.insert never appends to the queue for a key that is already pending (<= 1 entry per distinct pending key)")
+	contentWriters(c, "C08.handles-keep-value")
+	c.Borrow("C11", map[string]string{"C11.token": "C08.wakeup"}, "a producer that skips the wake-up token leaves a healthy subscriber's sender parked with updates pending: it stops receiving although nothing is blocked")
 	c.Rule("C08.isolation", "dropping one subscriber's registration leaves the others in place: removeQuery prunes a node only when it holds neither clients nor children")
 	removeQueryPrune(c, "C08.isolation")
 	c.Rule("C08.timer", "every gRPC Send in package subscribe is preceded on its path by Reset of the send timer and followed by its Stop; on every path of the sender loop (sendSubscribeResponse inlined) the timer is stopped whenever Queue.Next is called; the timer is the one the watcher goroutine of sendStreamingResults selects on, whose expiry arm sends a non-nil error on errC")
